@@ -795,8 +795,9 @@ impl Cred {
             Some(438) => {
                 ctx.count("c08.438-received");
                 let nonce = c.raw.find(wire::T_NONCE);
-                let ok_auth = auth.map(|a| a.0).unwrap_or(false);
-                if self.cur.is_some() && nonce.is_some() && new_nonce.is_some() && (no_integrity || (ok_auth && auth.map(|a| a.1).unwrap_or(false))) && !retry {
+                // must-retry only when the integrity verifies under the key the client is known
+                // to use (ok_chosen), not merely under some key it could have chosen
+                if self.cur.is_some() && nonce.is_some() && new_nonce.is_some() && (no_integrity || (ok_chosen && auth.map(|a| a.1).unwrap_or(false))) && !retry {
                     self.v(ctx, M_C08, "c08:stale-nonce-not-answered-with-retry", desc.clone(), wit("438 with a new nonce must make the client ask for a retry"));
                 }
                 if retry {
